@@ -67,7 +67,7 @@ structure Inv (st : State) : Prop where
   all : ∀ p, st.plan = some p →
       0 < p.maxSell ∧ p.maxSell ≤ p.alloc ∧ 0 ≤ p.liqPart.raw ∧ p.liqPart.raw ≤ decP ∧
       0 ≤ p.vest.dur ∧ 0 ≤ p.vest.startAfter ∧
-      (p.sold ≤ p.maxSell ∨ p.sold ≤ st.cfg.creationFee) ∧ p.claimed ≤ p.sold ∧ st.cfg.creationFee ≤ p.claimed ∧
+      p.sold ≤ p.maxSell ∧ p.claimed ≤ p.sold ∧ st.cfg.creationFee ≤ p.claimed ∧
       p.L = st.cfg.liqDec
   pre : ∀ p, st.plan = some p → p.settled = false →
       st.modIro + sumTo st.cfg.n st.iro = p.alloc ∧ sumTo st.cfg.n st.iro = p.sold - p.claimed ∧
@@ -88,13 +88,13 @@ theorem inv_step {I : Int → Int} {T : Int → Int → Option Int} {st : State}
     | create alloc m n c L en stt pd lp vd vs =>
       obtain ⟨hc, rfl⟩ := doCreate_ok h
       unfold createOk at hc
-      obtain ⟨-, -, -, hl0, hl1, hvd, hvs, -, -, -, hn, -, hL, -, hm0, hm1, hcp, -⟩ := hc
+      obtain ⟨-, -, -, hl0, hl1, hvd, hvs, -, -, -, hn, -, hL, -, hm0, hm1, hfee, hcp, -⟩ := hc
       obtain ⟨hz, hmz, hpl⟩ := hi.none_ hn
       refine ⟨hi.iro_nonneg, by simp, ?_, ?_, ?_⟩
       · intro p hp
         simp only [Option.some.injEq] at hp
         subst hp
-        exact ⟨hm0, hm1, hl0, hl1, hvd, hvs, Or.inr (Int.le_refl _), Int.le_refl _, Int.le_refl _, hL⟩
+        exact ⟨hm0, hm1, hl0, hl1, hvd, hvs, hfee, Int.le_refl _, Int.le_refl _, hL⟩
       · intro p hp _
         simp only [Option.some.injEq] at hp
         subst hp
@@ -128,7 +128,7 @@ theorem inv_step {I : Int → Int} {T : Int → Int → Option Int} {st : State}
       · intro q hq
         simp only [Option.some.injEq] at hq
         subst hq
-        exact ⟨a1, a2, a3, a4, a5, a6, Or.inl hms, by simp only []; omega, a9, a10⟩
+        exact ⟨a1, a2, a3, a4, a5, a6, hms, by simp only []; omega, a9, a10⟩
       · intro q hq _
         simp only [Option.some.injEq] at hq
         subst hq
@@ -152,7 +152,7 @@ theorem inv_step {I : Int → Int} {T : Int → Int → Option Int} {st : State}
       · intro q hq
         simp only [Option.some.injEq] at hq
         subst hq
-        exact ⟨a1, a2, a3, a4, a5, a6, Or.inl hms, by simp only []; omega, a9, a10⟩
+        exact ⟨a1, a2, a3, a4, a5, a6, hms, by simp only []; omega, a9, a10⟩
       · intro q hq _
         simp only [Option.some.injEq] at hq
         subst hq
